@@ -14,6 +14,7 @@ Python renders inputs, calls the API, evaluates terms and compares; it holds no 
 """
 import csv
 import json
+import zlib
 import os
 import random
 import shutil
@@ -58,6 +59,17 @@ def make_condition(val, cplx, scale):
     return out
 
 
+def narrow_int(a):
+    """the same integer values in the narrowest signed integer dtype in which every value AND every product of
+    two values is representable (element-wise arithmetic in that dtype is exact; only sums over particles,
+    origins or components can exceed it): 0/1 flags as int8, small counts as int8 / int16"""
+    m = int(np.max(np.abs(a))) if a.size else 0
+    for dt, lim in ((np.int8, 11), (np.int16, 181), (np.int32, 46340)):
+        if m <= lim:
+            return np.array(a, dtype=dt)
+    return np.array(a, dtype=np.int64)
+
+
 def call_api(api, ts, N, cond, dt, outputfile=""):
     snaps = make_snapshots(ts, N)
     with warnings.catch_warnings():
@@ -85,6 +97,11 @@ def replay_case(chk, case, api, scale=1, csvdir=None, verbose=False):
     cond = make_condition(case["val"], case["cplx"], scale)
     brief = {k: case[k] for k in ("T", "N", "rank", "dim", "cplx", "ts", "dt", "val", "kind")}
     brief["scale"] = scale
+    # representation: integer-valued real scalar / vector series also as narrow integer arrays (every third such case)
+    if (not case["cplx"]) and scale == 1 and case["rank"] <= 1 and np.array_equal(cond, np.rint(cond)) \
+            and zlib.crc32(json.dumps(case["val"]).encode()) % 3 == 0:
+        cond = narrow_int(cond)
+        brief["dtype"] = cond.dtype.name
     expected = [ev(t) for t in case["corrT"]]
     texp = [ev(t) for t in case["tT"]]
     for k, r in enumerate(case["corr"]):       # the spec's two forms of the same number agree
